@@ -132,7 +132,8 @@ class PingRacer(object):
 
 EVENTS = ["connect-request", "connected", "connected-held", "release-handshake", "socket-error", "peer-close", "disconnect-request", "success", "failure", "stream-error:conflict",
           "stream-error:ack", "stream-error:xml-not-well-formed", "tick", "tick", "tick", "pong",
-          "tick-race:peer-close", "tick-race:disconnect-request", "tick-race:socket-error"]
+          "tick-race:peer-close", "tick-race:disconnect-request", "tick-race:socket-error",
+          "peer-close+connect-request", "socket-error+connect-request", "peer-close+reconnect-up"]
 
 
 class Ref(object):
@@ -184,6 +185,12 @@ class Ref(object):
             return self.conn == "up" and self.handshake
         if ev == "tick":
             return True
+        if ev == "peer-close+reconnect-up":
+            return self.conn == "up"
+        if ev.endswith("+connect-request"):
+            # the connection drops and the application asks for a new one before the stack's loop has turned (the deferred part of
+            # the down announcement is still queued)
+            return self.conn == "up"
         if ev.startswith("tick-race"):
             # the clock advances and, while the keep-alive thread is in the middle of its step, the connection goes down;
             # only where the tick alone would not time out
@@ -236,6 +243,13 @@ class Ref(object):
                 e["pings"] += 1
                 self.outstanding = True
                 self.next_due = self.now + self.interval
+        elif ev.endswith("+connect-request"):
+            self.apply(ev.split("+")[0])
+            return self.apply("connect-request")
+        elif ev == "peer-close+reconnect-up":
+            self.apply("peer-close")
+            self.apply("connect-request")
+            return self.apply("connected")
         elif ev.startswith("tick-race"):
             self.now += 1
             self.race_ping_possible = self.next_due is not None and self.now >= self.next_due
@@ -318,6 +332,7 @@ def one_history(acc, seed, tag, forced=None):
         ref = Ref(opts["reconnect"], opts["interval"])
         ok = True
         interesting = False
+        stale_down = [False]
 
         def settle():
             # the keep-alive thread does its work synchronously in its own thread: let it finish and park in the clock
@@ -380,6 +395,35 @@ def one_history(acc, seed, tag, forced=None):
                 kind = ev.split(":")[1]
                 kids = [(kind, {}, [], None)] + ([("text", {}, [], b"Replaced by new connection")] if kind == "conflict" else [])
                 W.server.to_client(A, ("stream:error", {}, kids, None))
+            elif ev == "peer-close+reconnect-up":
+                # ... and the new connection even comes up and starts its login before the loop turns
+                W.hold_pump = True
+                try:
+                    W.server_close(A)
+                    W.run(max_steps=W.steps + 4000)
+                    c.guarded(lambda: c.app.connect(), "connect")
+                    W.hold_connects = False
+                    W.run(max_steps=W.steps + 4000)
+                    acc.count("reconnect_up_before_loop_turn")
+                    if W.detached_pending():
+                        stale_down[0] = True
+                        acc.count("reconnect_up_with_down_announcement_still_queued")
+                finally:
+                    W.hold_pump = False
+            elif ev.endswith("+connect-request"):
+                W.hold_pump = True
+                try:
+                    if ev.startswith("socket-error"):
+                        W.socket_error(A)
+                    else:
+                        W.server_close(A)
+                    W.run(max_steps=W.steps + 4000)
+                    acc.count("reconnect_before_loop_turn")
+                    if W.detached_pending():
+                        acc.count("reconnect_with_deferred_events_queued")
+                    c.guarded(lambda: c.app.connect(), "connect")
+                finally:
+                    W.hold_pump = False
             elif ev == "tick":
                 clock.tick()
             elif ev.startswith("tick-race"):
@@ -410,11 +454,11 @@ def one_history(acc, seed, tag, forced=None):
                 pend = W.server.held_pings.pop(0) if W.server.held_pings else None
                 if pend:
                     W.server.to_client(A, ("iq", {"id": pend, "type": "result", "from": "s.whatsapp.net"}, [], None))
-            W.hold_connects = ev not in ("connected", "connected-held")     # a pending 'connected' callback is only delivered by those events
+            W.hold_connects = ev not in ("connected", "connected-held", "peer-close+reconnect-up")     # a pending 'connected' callback is only delivered by those events
             W.hold_raw = not ref.handshake and ev != "release-handshake" and (ev == "connected-held" or ref.conn == "up")
             good = settle()
             W.hold_connects = False
-            if ev in ("socket-error", "peer-close", "disconnect-request") or ev.startswith("tick-race") or ref.conn != "up":
+            if ev in ("socket-error", "peer-close", "disconnect-request") or ev.startswith("tick-race") or ev.endswith("+connect-request") or ref.conn != "up":
                 W.hold_raw = False
             if not good:
                 return
@@ -435,6 +479,12 @@ def one_history(acc, seed, tag, forced=None):
             at = [i, ev]
 
             def bad(key, what):
+                if stale_down[0]:
+                    # one mechanism, many symptoms: the new connection came up while the previous connection's 'disconnected'
+                    # announcement was still queued for the layers above the framing layer; delivered afterwards it tears down the
+                    # new login. Everything that goes wrong later in this history is attributed to it.
+                    what = "after a reconnect that came up before the stack's loop had delivered the previous connection's 'disconnected' announcement: " + what
+                    key = "reconnect-up-before-loop-turn"
                 acc.violation(key, "%s (options %s; after event %d: %s; history %s)" % (what, {k: v for k, v in opts.items()}, i, ev, events), dict(w, events=list(events), observed=obs, expected=dict(e), trace_tail=[list(x) for x in W.trace[-25:]],
                                    outbound={k: [t[0] for t in v] for k, v in W.server.outbound.items()}, srv_state=getattr(getattr(c.dispatcher, "srv", None), "state", None),
                                    raw_out={k: len(v) for k, v in W.raw_out.items()}, connected=c.connected,
@@ -468,7 +518,7 @@ def one_history(acc, seed, tag, forced=None):
             if ok and (c.net.getStatus() is True) != (ref.conn == "up"):
                 ok = bad("status:%s" % ev.split(":")[0], "network layer reports connected=%s while the reference machine is %s" % (c.net.getStatus(), ref.conn))
             # the presented passive flag
-            if ok and ev in ("connected", "release-handshake"):
+            if ok and ev in ("connected", "release-handshake", "peer-close+reconnect-up"):
                 cp = c.dispatcher.srv.client_payload if getattr(c.dispatcher, "srv", None) is not None else None
                 if cp is None or bool(cp.passive) != bool(opts["passive"]):
                     ok = bad("passive-flag", "login presented passive=%s, configured %s" % (getattr(cp, "passive", None), opts["passive"]))
